@@ -98,8 +98,8 @@ public:
 	constexpr posit& operator=(char rhs)                    { return operator=((long long)(rhs)); }
 	constexpr posit& operator=(unsigned short rhs)          { return operator=((long long)(rhs)); }
 	constexpr posit& operator=(unsigned int rhs)            { return operator=((long long)(rhs)); }
-	constexpr posit& operator=(unsigned long rhs)           { return operator=((long long)(rhs)); }
-	constexpr posit& operator=(unsigned long long rhs)      { return operator=((long long)(rhs)); }
+	constexpr posit& operator=(unsigned long rhs)           { return operator=((unsigned long long)(rhs)); }
+	constexpr posit& operator=(unsigned long long rhs)      { return integer_assign(rhs > 64u ? 64ll : (long long)(rhs)); } // beyond maxpos = 64 saturates
 		      posit& operator=(float rhs)                   { return float_assign(rhs); }
 			  posit& operator=(double rhs)                  { return float_assign(float(rhs)); }
 			  posit& operator=(long double rhs)             { return float_assign(float(rhs)); }
@@ -305,7 +305,7 @@ private:
 		bool sign = (rhs < 0) ? true : false;
 		long long v = sign ? static_cast<long long>(0ull - static_cast<unsigned long long>(rhs)) : rhs; // project to positive side of the projective reals
 		uint8_t raw = 0;
-		if (v > 48 || v == rhs) { // +-maxpos
+		if (v > 48 || v < 0) { // +-maxpos (v < 0: the most negative value, whose negation does not exist)
 			raw = 0x7F;
 		}
 		else if (v < 2) {
